@@ -58,6 +58,7 @@ type result struct {
 	Race    string
 	Took    int
 	Order   string // per-item pools: the tree ids in the order the caller received the records
+	Prog    int    // fbp, tbe: Supporter.Progress() after the call, +1 (0 = not observed)
 }
 
 func (r request) fields() []string {
@@ -73,6 +74,9 @@ func (r request) op() string {
 	if r.Kind == "hashmap" {
 		return "C11.hm"
 	}
+	if r.Kind == "hmseq" {
+		return "C11.hmseq"
+	}
 	return "C11.pool"
 }
 
@@ -80,7 +84,7 @@ func (r request) line() string { return r.op() + "\t" + strings.Join(r.fields(),
 
 func parseRequest(l string) (request, error) {
 	f := strings.Split(l, "\t")
-	if len(f) < 6 || (f[0] != "C11.pool" && f[0] != "C11.hm") {
+	if len(f) < 6 || (f[0] != "C11.pool" && f[0] != "C11.hm" && f[0] != "C11.hmseq") {
 		return request{}, fmt.Errorf("not a C11 request: %q", l)
 	}
 	th, err := strconv.Atoi(f[2])
@@ -201,6 +205,9 @@ func runLib(c *core.Ctx, r request) (res result) {
 	if r.Kind == "hashmap" {
 		return runHashMap(r)
 	}
+	if r.Kind == "hmseq" {
+		return runHashMapSeq(r)
+	}
 	ref, err := buildRef(r)
 	if err != nil {
 		return result{Outcome: "crash:" + core.Escape("harness: "+err.Error())}
@@ -264,16 +271,16 @@ func runLib(c *core.Ctx, r request) (res result) {
 		}
 		res.Outcome, res.Records = "ok", b.String()
 	case "fbp":
-		var sup *support.Supporter
+		// the caller's Supporter: its progress counter is incremented by every worker (supporter.go:28)
+		sup := support.NewSupporter()
 		if r.has('c') { // cancelled from outside while the workers run: the call must still return
-			sup = support.NewSupporter()
 			go func() { time.Sleep(30 * time.Microsecond); sup.Cancel() }()
 		}
 		err := support.FBP(ref, feed(items, &sent), r.Threads, sup)
 		if err != nil {
-			return result{Outcome: "err:" + errClass(err), Took: -1}
+			return result{Outcome: "err:" + errClass(err), Took: -1, Prog: sup.Progress() + 1}
 		}
-		res.Outcome, res.Records = "ok", supports(ref)
+		res.Outcome, res.Records, res.Prog = "ok", supports(ref), sup.Progress()+1
 	case "tbe":
 		var logf *os.File
 		stats := r.has('a')
@@ -289,11 +296,12 @@ func runLib(c *core.Ctx, r request) (res result) {
 		if err := ref.ReinitIndexes(); err != nil {
 			return result{Outcome: "err:" + errClass(err), Took: -1}
 		}
-		raw, err := support.TBE(ref, feed(items, &sent), r.Threads, r.has('w'), stats, stats, 0.3, logf, nil)
+		tsup := support.NewSupporter()
+		raw, err := support.TBE(ref, feed(items, &sent), r.Threads, r.has('w'), stats, stats, 0.3, logf, tsup)
 		if err != nil {
-			return result{Outcome: "err:" + errClass(err), Took: -1}
+			return result{Outcome: "err:" + errClass(err), Took: -1, Prog: tsup.Progress() + 1}
 		}
-		res.Outcome, res.Records = "ok", supports(ref)
+		res.Outcome, res.Records, res.Prog = "ok", supports(ref), tsup.Progress()+1
 		if r.has('w') && raw != nil { // --out-raw: the clone with the average transfer distances as node names
 			defer func() { res.Records += "#raw:" + core.Escape(raw.Newick()) }()
 		}
@@ -393,7 +401,7 @@ func child(c *core.Ctx, file string) {
 			if left < 0 {
 				left = 0
 			}
-			res.Order += ";" + strconv.Itoa(left)
+			res.Order += ";" + strconv.Itoa(left) + ";" + strconv.Itoa(res.Prog-1)
 		}
 		fmt.Fprintf(c.W, "R\t%d\t%s\t%s\t%d;%s\n", i, res.Outcome, res.Records, res.Took, res.Order)
 		c.W.Flush()
@@ -1403,5 +1411,7 @@ func generate(c *core.Ctx, cfg *config) {
 			flush()
 		}
 	}
+	// histories of calls on one hash map (drawn last: the stream of the collections above is unchanged)
+	reqs = append(reqs, genHashMapSeq(c, cfg)...)
 	flush()
 }
